@@ -574,6 +574,19 @@ func seedFor(t *rapid.T, name string) []byte {
 			return out
 		}
 	case "glyf.Decode":
+		if rapid.IntRange(0, 7).Draw(t, "hugeGlyph") == 0 {
+			// one simple glyph with as many points as the format can count
+			// (the last end point is a 16-bit number), spelled with repeated
+			// flags so that it stays a few hundred bytes long
+			stats.Label("glyf", "seed:huge-point-count")
+			np := rapid.SampledFrom([]int{255, 256, 257, 511, 512, 513, 32767, 32768, 65279, 65280, 65534, 65535, 65536}).Draw(t, "nPoints")
+			nc := rapid.IntRange(1, 3).Draw(t, "nContours")
+			g := hugeSimpleGlyph(np, nc, rapid.SampledFrom([]int{255, 254, 128, 1}).Draw(t, "repeat"))
+			loca := []byte{0, 0, 0, 0, 0, 0, 0, 0, byte(len(g) >> 24), byte(len(g) >> 16), byte(len(g) >> 8), byte(len(g))}
+			out := []byte{1, 0, byte(len(loca))}
+			out = append(out, loca...)
+			return append(out, g...)
+		}
 		b, c := fontBytes(t, genfont.KindGlyf, 30)
 		_ = b
 		enc := c.Font.Outlines.(*glyf.Outlines).Glyphs.Encode()
@@ -712,6 +725,38 @@ func seedFor(t *rapid.T, name string) []byte {
 }
 
 // ---- the rapid tests: one per decoder group ---------------------------------------------
+
+// hugeSimpleGlyph spells a simple glyph with np points in nc contours whose
+// points all lie at the origin: every flag says "on curve, x and y as before"
+// and is followed by a repeat count (at most rep).
+func hugeSimpleGlyph(np, nc, rep int) []byte {
+	if nc > np {
+		nc = np
+	}
+	g := []byte{byte(nc >> 8), byte(nc), 0, 0, 0, 0, 0, 0, 0, 0}
+	for i := 1; i <= nc; i++ {
+		end := np*i/nc - 1
+		g = append(g, byte(end>>8), byte(end))
+	}
+	g = append(g, 0, 0) // no instructions
+	const flag = 0x01 | 0x10 | 0x20
+	for left := np; left > 0; {
+		k := left - 1
+		if k > rep {
+			k = rep
+		}
+		if k == 0 {
+			g = append(g, flag)
+		} else {
+			g = append(g, flag|0x08, byte(k))
+		}
+		left -= k + 1
+	}
+	for len(g)%4 != 0 {
+		g = append(g, 0)
+	}
+	return g
+}
 
 func runGroup(t *testing.T, sub string, names ...string) {
 	rapid.Check(t, func(t *rapid.T) {
